@@ -34,7 +34,7 @@ fn edit_list(ch: &mut Ch, sigs: &mut Vec<Sig>, b: &Built, log: &mut Vec<String>)
     }
     let i = ch.upto(sigs.len());
     let virt = b.analysis.virtuals.clone();
-    match ch.upto(12) {
+    match ch.upto(13) {
         0 => {
             let new = ["ZZ", "A", "Q", "n", "IO_out", "Q_out"][ch.upto(6)].to_string();
             log.push(format!("rename {} -> {new}", sigs[i].name));
@@ -138,6 +138,19 @@ fn edit_list(ch: &mut Ch, sigs: &mut Vec<Sig>, b: &Built, log: &mut Vec<String>)
                 sigs.push(Sig { name: format!("{o}_out"), bits: 4, kind: Kind::In(InVal::Val(0)) });
             }
         }
+        11 => {
+            // take the input away from under a C column called <b>_out: the column is then only
+            // the expected value of the bidirectional <b>
+            let c = b.analysis.ccols.iter().find(|c| c.ends_with("_out") && sigs.iter().any(|s| s.name == **c && s.is_input())).cloned();
+            if let Some(c) = c {
+                log.push(format!("drop the input {c} under a C column"));
+                sigs.retain(|s| s.name != c);
+                let stem = c.strip_suffix("_out").unwrap().to_string();
+                if !sigs.iter().any(|s| s.name == stem) {
+                    sigs.push(Sig { name: stem, bits: 1 + ch.upto(64), kind: Kind::Bidir(InVal::Z) });
+                }
+            }
+        }
         _ => {
             log.push(format!("rewidth {}", sigs[i].name));
             sigs[i].bits = 1 + ch.upto(64);
@@ -150,7 +163,7 @@ impl Property for C11 {
         "C11"
     }
     fn rule(&self) -> &'static str {
-        "profile `fit`: a generated program with device reads, C columns, virtual signals, bidirectional and shared columns, total expressions; its fitted signal list, then 0-2 edits of the list (rename, drop, duplicate also with the other direction, flip direction, add an unrelated signal, reorder, rename to a virtual's name, name<->name_out, make a read name an input, make a C column an output, add an input called <output>_out, change a width). Oracle: the four clauses of the statement evaluated on the model with an independent static scope analysis (one frame per loop/repeat, none for while, let visible after its right-hand side, counter invisible in the bound, declare blind to variables) vs Ok/Err of with_signals; if Ok, the test is iterated to the end with an honest driver and any panic or error item is a violation. Non-trivial: accepted with >= 1 of {read output, C column, virtual, bidirectional}, or rejected by an edit; distinct by source + list."
+        "profile `fit`: a generated program with device reads, C columns, virtual signals, bidirectional and shared columns, total expressions; its fitted signal list, then 0-2 edits of the list (rename, drop, duplicate also with the other direction, flip direction, add an unrelated signal, reorder, rename to a virtual's name, name<->name_out, make a read name an input, make a C column an output, add an input called <output>_out, take the input away from under a shared `<b>_out` column that holds C, change a width). Oracle: the four clauses of the statement evaluated on the model with an independent static scope analysis (one frame per loop/repeat, none for while, let visible after its right-hand side, counter invisible in the bound, declare blind to variables) vs Ok/Err of with_signals; if Ok, the test is iterated to the end with an honest driver and any panic or error item is a violation. Non-trivial: accepted with >= 1 of {read output, C column, virtual, bidirectional}, or rejected by an edit; distinct by source + list."
     }
     fn cases(&self, tier: Tier) -> u64 {
         match tier {
@@ -159,7 +172,7 @@ impl Property for C11 {
         }
     }
     fn required_classes(&self) -> Vec<&'static str> {
-        vec!["accepted", "rejected", "accepted-after-edit", "reads-device", "C-row", "declare", "shared-column", "rejected:duplicate", "rejected:header", "rejected:C-column", "rejected:read"]
+        vec!["accepted", "rejected", "accepted-after-edit", "reads-device", "C-row", "declare", "shared-column", "rejected:duplicate", "rejected:header", "rejected:C-column", "rejected:read", "C-in-shared-column", "rejected:C-in-bidir-out-column"]
     }
     fn run(&self, s: &Streams) -> CaseOut {
         let mut out = CaseOut::new();
@@ -178,6 +191,12 @@ impl Property for C11 {
         let f = feats(&built);
         feat_classes(&mut out, &f);
         let want = fits(&built.prog, &built.analysis, &sigs);
+        // a C column that is the expected column of a bidirectional signal
+        let c_in_bidir_out = |sigs: &[Sig], also_input: bool| {
+            built.analysis.ccols.iter().any(|c| {
+                sigs.iter().any(|s| matches!(s.kind, Kind::Bidir(_)) && format!("{}_out", s.name) == *c) && sigs.iter().any(|s| s.name == *c && s.is_input()) == also_input
+            })
+        };
         let parsed = match parse(&text) {
             Err(p) => {
                 out.fail(p.key(), format!("parse panicked: {p}"));
@@ -219,10 +238,12 @@ impl Property for C11 {
                 } else {
                     "rejected:read"
                 });
+                out.class_if(why.starts_with("C column") && c_in_bidir_out(&sigs, false), "rejected:C-in-bidir-out-column");
                 out.nontrivial = true;
             }
             (Ok(()), Ok(tc)) => {
                 out.class("accepted");
+                out.class_if(c_in_bidir_out(&sigs, true), "C-in-shared-column");
                 out.class_if(nedits > 0, "accepted-after-edit");
                 out.class_if(shared, "shared-column");
                 out.nontrivial = f.device_read || f.c_rows > 0 || f.declares > 0 || sigs.iter().any(|s| matches!(s.kind, Kind::Bidir(_)));
